@@ -47,6 +47,9 @@ func (q QueryOp) SQL() (string, map[string]any) {
 		// that do not have them
 		s = `SELECT ` + qCols + `, (CASE WHEN json_valid(CAST(body AS TEXT)) THEN CAST(body AS TEXT)->'$.n' END) AS n,` +
 			` (CASE WHEN xattrs IS NOT NULL AND json_valid(CAST(xattrs AS TEXT)) THEN CAST(xattrs AS TEXT)->'$._sync.seq' END) AS s FROM $_keyspace`
+	case "noxattrs":
+		// documents without extended attributes: the column is NULL for them (not an empty object)
+		s = `SELECT ` + qCols + ` FROM $_keyspace WHERE xattrs IS NULL`
 	case "count":
 		s = `SELECT COUNT(*) AS n FROM $_keyspace`
 	case "type":
@@ -126,6 +129,8 @@ func expectedQueryRows(r *Run, ci int, q QueryOp) []qrow {
 			for _, id := range q.IDs {
 				ok = ok || id == k
 			}
+		case "noxattrs":
+			ok = len(st.X) == 0
 		case "type":
 			t, isStr := obj["type"].(string)
 			ok = valid && isStr && t == q.Str
@@ -450,7 +455,7 @@ func genQuery(rt *rapid.T, r *Run) (Op, bool) {
 	if len(w.Handles) > 1 {
 		op.H = rapid.IntRange(0, len(w.Handles)-1).Draw(rt, "q.h")
 	}
-	q := &QueryOp{Kind: pick(rt, []string{"all", "all", "byid", "like", "in", "count", "type", "ngt", "xseq", "proj", "proj"}, "q.kind")}
+	q := &QueryOp{Kind: pick(rt, []string{"all", "all", "byid", "like", "in", "count", "type", "ngt", "xseq", "proj", "proj", "noxattrs"}, "q.kind")}
 	switch q.Kind {
 	case "byid":
 		q.Str = pick(rt, append([]string{"zz"}, w.Model.Keys(op.C)...), "q.id")
